@@ -320,6 +320,7 @@ def truth(v, cells):
     d = v[1]
     for c, q in d.items():
         if c is not None and abs(q) < 1:
+            cells.add('small-truth')
             raise Skip()     # truth of a commoditized amount is decided at display precision
     return bool(d)
 
@@ -363,6 +364,8 @@ def arith(op, a, b, cells):
     # comparisons
     if len(da) > 1 or len(db) > 1:
         raise Skip()
+    if (not da and len(a[3]) > 1) or (not db and len(b[3]) > 1):
+        raise Skip()      # a zero made from several commodities is an empty balance, which ledger orders with nothing
     if len((a[3] | b[3]) - {None}) > 1:
         raise Skip()
     if op in ('==', '!=') and a[3] != b[3]:
@@ -673,6 +676,13 @@ def directed(rng):
                                         ('lit', Lit('1', 2, ('$', 'pre')))), n(v2))),
         ('dispzero', ('bin', '|', ('bin', '*', ('bin', '*', ('lit', Lit(str(v1), 2, ('$', 'pre'))), ('lit', Lit(str(v3), 2, ('$', 'pre')))),
                                         ('lit', Lit('1', 2, ('$', 'pre')))), n(v2))),
+        # a function that returns a closure over its parameter, called after the function returned
+        ('escape', ('seq', [('deffun', f, [a], ('lam', [b], ('bin', '+', ('id', a), ('id', b))))],
+                    ('call', ('call', ('id', f), [n(v1)]), [n(v2)]))),
+        # a variable defined from a parameter, used inside a function whose parameter has the same name
+        ('dynscope', ('seq', [('deffun', f, [a], ('seq', [('def', y, ('bin', '*', ('id', a), n(2))), ('deffun', g, [a], ('id', y))],
+                                                  ('call', ('id', g), [n(v2)])))],
+                      ('call', ('id', f), [n(v1)]))),
         # a ternary whose branches become constants during compilation
         ('foldtern', ('tern', ('bool', v1 % 2 == 0), ('seq', [('def', x, n(v1))], n(v2)), n(v3), '?')),
     ]
@@ -919,7 +929,7 @@ def process(ctx, res, rows, cat):
             if not same_value(iv, ir):
                 if 'tern' in ks or 'ifonly' in ks:
                     key = 'reparse:ternary'
-                elif has_small_amount_truth(e) and not iv.startswith('E') and not ir.startswith('E'):
+                elif 'small-truth' in cells:
                     key = 'reparse:display-zero-truth'
                 else:
                     key = 'reparse:%s' % cat
@@ -957,7 +967,7 @@ def run(ctx, n_override=None):
         d3 = small_trees(l4, 3, ops=ops3, unary=True, tern=False)
         d3 = [t for t in d3 if t[0] == 'bin' and (t[2][0] in ('bin', 'neg', 'not') or t[3][0] in ('bin', 'neg', 'not'))]
         rng.shuffle(d3)
-        small += d3[:60000 * scale]
+        small += d3[:30000 * scale]
     else:
         d2s = [t for t in d2 if t[0] == 'bin']
         for _ in range(1500 * scale):
@@ -971,7 +981,7 @@ def run(ctx, n_override=None):
         cases = [mk_case(rng, 'small', t, extra=0.0, tight=0.3) for t in small[k:k + batch]]
         process(ctx, res, run_batch(ctx, res, journal, pool0, cases, 's%d_' % k), 'small')
     # --- 2. random deep trees
-    nrand = ctx.scale(4000, 30000) * scale
+    nrand = ctx.scale(4000, 20000) * scale
     done = 0
     bi = 0
     while done < nrand:
